@@ -84,6 +84,7 @@ type spFrame struct {
 	Data  int    `json:"data,omitempty"`
 	Delta bool   `json:"delta,omitempty"`
 	Ep    int    `json:"ep,omitempty"`
+	Could bool   `json:"-"` // a full frame although a smaller (and transportable) patch against the held bytes exists
 }
 
 type spConn struct {
@@ -427,10 +428,21 @@ func (r *spRunner) takePub(c *spConn, p *protocol.Publication, where string) (sp
 		sig := "delta-base"
 		if !p.Delta {
 			sig = "data-format"
+		} else if r.proto == centrifuge.ProtocolTypeJSON && had {
+			// was the patch mangled in transit? (U+FFFD in the wire string although no payload contains it)
+			if w, err := wireData(r.proto, true, p); err == nil && bytes.Contains(w, []byte("\xef\xbf\xbd")) {
+				sig = "json-escape:delta-cuts-utf8"
+			}
 		}
-		return f, &spVerdict{sig + ":" + where, fmt.Sprintf("%s key %s version %d delta=%v: %s; connection held %s; wire data %.160q", where, p.Key, p.Version, p.Delta, a.Err, desc, string(p.Data))}
+		if !strings.HasPrefix(sig, "json-escape") {
+			sig += ":" + where
+		}
+		return f, &spVerdict{sig, fmt.Sprintf("%s key %s version %d delta=%v: %s; connection held %s; wire data %.160q", where, p.Key, p.Version, p.Delta, a.Err, desc, string(p.Data))}
 	}
 	f.Data = r.pl.idOf(a.Data)
+	if !p.Delta && had {
+		f.Could = realDeltaPossible(before, a.Data, r.proto == centrifuge.ProtocolTypeJSON)
+	}
 	r.mu.Lock()
 	okKey := r.keyIDs[p.Key][f.Data]
 	want, defined := r.defs[fmt.Sprintf("%s|%s|%d", c.epoch, p.Key, p.Version)]
@@ -572,7 +584,12 @@ func sameSP(a, b []spFrame) bool {
 		return false
 	}
 	for i := range a {
-		if a[i] != b[i] {
+		x, y := a[i], b[i]
+		if y.Delta && !x.Delta && !x.Could {
+			x.Delta = true // the server legitimately falls back to the full payload when no usable patch exists
+		}
+		x.Could = false
+		if x != y {
 			return false
 		}
 	}
@@ -694,6 +711,12 @@ func (r *spRunner) run(bi int, beh []map[string]any, compare bool, res *vh.Resul
 	}()
 	var snapshot *centrifuge.SharedPollResult
 	var snapKeys []string
+	type owed struct {
+		conn string
+		key  string
+		id   int
+	}
+	var owes []owed // what the last backend answer obliges the server to have delivered once the worker is idle again
 	var pk struct {
 		k   string
 		ver uint64
@@ -807,6 +830,16 @@ func (r *spRunner) run(bi int, beh []map[string]any, compare bool, res *vh.Resul
 				delete(r.pending, "w")
 				if vh.Bool(step["late"]) {
 					snapshot = r.answer(snapKeys)
+				}
+				owes = owes[:0]
+				if !flipped {
+					for _, it := range snapshot.Items {
+						for name, c := range r.conns {
+							if c.subbed && c.tracked[it.Key] {
+								owes = append(owes, owed{name, it.Key, r.pl.idOf(it.Data)})
+							}
+						}
+					}
 				}
 				a.resume <- snapshot
 				wReleased = true
@@ -947,12 +980,35 @@ func (r *spRunner) run(bi int, beh []map[string]any, compare bool, res *vh.Resul
 		if completed == 0 {
 			break
 		}
+		// delivery monitor: the worker is idle again - a connection that tracked the key throughout must not be left
+		// with an OLDER payload than the one the backend answered (payload ids grow with every backend change)
+		if vh.Str(thw["pc"]) == "idle" && r.pending["w"] == nil {
+			for _, o := range owes {
+				c := r.conns[o.conn]
+				h := c.held[o.key]
+				if c.subbed && c.tracked[o.key] && h != nil && h.has {
+					if have := r.pl.idOf(h.held); have != 0 && have < o.id {
+						violate(spVerdict{"stale-after-refresh", fmt.Sprintf("the backend answered payload #%d for key %s, after the refresh was fully processed the connection still holds the older payload #%d (version %d); frames %s", o.id, o.key, have, c.cver[o.key], vh.J(c.seen))}, o.conn)
+					}
+				}
+			}
+			owes = owes[:0]
+		}
+		if completed == 0 {
+			break
+		}
 		// epoch monitor: a subscription established under another epoch than the channel's current one must have ended
 		sep := epStr(vh.Int(st["sep"]))
 		if r.versioned {
 			for name, c := range r.conns {
 				if c.subbed && c.epoch != sep {
-					violate(spVerdict{"epoch-flip:subscription-survives", fmt.Sprintf("the channel epoch changed to %q, the subscription established under epoch %q was not ended with an insufficient-state unsubscribe; frames %s", sep, c.epoch, vh.J(c.seen))}, name)
+					kind := "idle"
+					for _, t := range c.tracked {
+						if t {
+							kind = "tracking"
+						}
+					}
+					violate(spVerdict{"epoch-flip:" + kind + "-subscription-survives", fmt.Sprintf("the channel epoch changed to %q, the subscription established under epoch %q was not ended with an insufficient-state unsubscribe; frames %s", sep, c.epoch, vh.J(c.seen))}, name)
 				}
 			}
 		}
